@@ -94,6 +94,71 @@ def parse_spec():
                 note='scalar payload types # ! ~ , $ ; float (^) is not modelled; } and ] by parse_dict/parse_list')
 
 
+# ------------------------------------------------------------------------------------------------ the streaming parser's payload conversion
+class CellV(object):
+    """the data artifact of the state machine, as the one entry tnet_parser.process stores: the value last assigned (or nothing yet)"""
+    def __init__(self, val):
+        self.val = val
+
+    def __repr__(self):
+        return 'CellV(%r)' % (self.val,)
+
+
+def frag_process_dispatch(eng, fdef):
+    """the type dispatch of tnet_parser.process: its last statement, an if / elif chain over tntype"""
+    import ast
+    last = fdef.body[-1]
+    if not (isinstance(last, ast.If) and 'tntype' in ast.unparse(last.test)):
+        raise Unsupported('stale contract: tnet_parser.process does not end with the dispatch over tntype')
+    return [last]
+
+
+def cell_local(eng, name, st):
+    st, ref = eng.new_list(st, CellV(None))
+    return ref, st
+
+
+def cell_set_item(eng, b, cur, i, v, st, line):
+    if not isinstance(cur, CellV):
+        return None
+    s = st.clone()
+    s.heap[(b.id, 'val')] = CellV(v)
+    return [(s, None)]
+
+
+def replay_process(model, obligation):
+    from cpppo.server import tnetstrings
+    for v in (u'x', u'\ufeffx', u'\xe9\u20ac', u'', b'', b'abc', b'\xef\xbb\xbfx', 0, 12345, None):
+        enc = tnetstrings.dump(v)
+        term, got, sent, data = run_machine([enc + b'3:abc,'])
+        if not (term and same(got, v) and sent == len(enc)):
+            return dict(confirmed=True, function='cpppo.server.tnet.tnet_machine (tnet_parser.process)', input=repr(enc), observed='terminal=%r value=%r sent=%r' % (term, got, sent),
+                        required='%r, as tnetstrings.parse gives it' % (v,))
+    return dict(confirmed=False)
+
+
+def process_spec():
+    def stored(pe, d):
+        from pyvc.vals import RefV
+        cur = pe.st.heap[(d.id, 'val')] if isinstance(d, RefV) and hasattr(pe, 'st') else d
+        if not isinstance(cur, CellV):
+            raise Unsupported('the data artifact is %r' % (cur,))
+        if cur.val is None:
+            from pyvc.vals import ConstV
+            return ConstV('<nothing stored>')
+        return cur.val
+    funcs = dict(FUNCS, stored=stored)
+    return Spec('tnet_parser.process[payload conversion]', ('server/tnet.py', 'tnet_machine.tnet_parser.process'), params={}, fragment=frag_process_dispatch,
+                hints=dict(locals={'tntype': 'Int', 'src': 'Bytes', 'ours': 'Str', 'data': cell_local}, funcs=funcs, set_item=cell_set_item, int_text=None),
+                requires='tntype in (44, 36, 126) and implies(tntype == 126, len(src) == 0)',
+                ensures=[('bytes: the payload as it is', 'implies(tntype == 44, stored(_f_data) == src)'),
+                         ('text: the payload decoded as tnetstrings.parse decodes it (utf-8)', 'implies(tntype == 36, stored(_f_data) == unutf8(src))'),
+                         ('null', 'implies(tntype == 126, stored(_f_data) is None)')],
+                raises={}, modifies=['data'], replay=replay_process,
+                note='FRAGMENT (T9): the if / elif chain of tnet_parser.process for the types , $ ~ (the # branch converts with int(), bounded tier only); the data artifact is one cell; '
+                     'utf-8 decoding is the same uninterpreted function as in the contract of tnetstrings.parse')
+
+
 # ------------------------------------------------------------------------------------------------ containers: the induction step for lists
 # Values are abstract ids (Int).  enc(v) is *the function computed by dump* on the value v (dump is deterministic: T).  The ghost list is
 # (_g_len, _g_A): its elements are the ids _g_A[0.._g_len).  cat(k) is the concatenation of enc(_g_A[j]) for j in [k, _g_len).
@@ -505,7 +570,7 @@ def roundtrip(repo):
 
 
 def contracts(repo):
-    return [parse_payload_spec()] + dump_specs() + list_specs() + dict_specs() + dump_dispatch_specs() + [parse_spec(), Custom('roundtrip', roundtrip, note='composition lemmas')]
+    return [parse_payload_spec()] + dump_specs() + list_specs() + dict_specs() + dump_dispatch_specs() + [parse_spec(), process_spec(), Custom('roundtrip', roundtrip, note='composition lemmas')]
 
 
 LEVEL_TEXT = ('Deductive proof on the real server/tnetstrings.py. Scalars: parse_payload extracts exactly payload, type byte and rest from '
